@@ -19,4 +19,4 @@ if [ -n "$PKG" ] && [ -f $OUT/demo_test.go ]; then
   rm -f $PKG/zz_seed_demo_test.go
 fi
 echo "--- ./check $PROP against the patched tree:"
-cd /verif && VERIF_REPO=$WT ./check $PROP 2>&1 | grep -E "^(OK|VIOLATION|INCONCLUSIVE|KNOWN|  )" | cut -c1-220 | head -8
+cd /verif && VERIF_REPO=$WT ./check $PROP 2>&1 > /tmp/seedcheck-$$.log 2>&1; echo "exit=$? violations=$(grep -c '^VIOLATION' /tmp/seedcheck-$$.log)"; grep -E "^(OK|INCONCLUSIVE|  )" /tmp/seedcheck-$$.log | cut -c1-220 | head -6; rm -f /tmp/seedcheck-$$.log
